@@ -92,12 +92,16 @@ type symEnv struct {
 	ints  map[ssa.Value]lin
 	bytes map[ssa.Value]lin
 	last  ssa.Value // most recent []byte append result
+	binds map[ssa.Value]ssa.Value // callees expanded in place: parameter → argument, call → result
 }
 
 func (s *symEnv) intOf(v ssa.Value) lin {
 	v = stripConv(v)
 	if l, ok := s.ints[v]; ok {
 		return l
+	}
+	if b, ok := s.binds[v]; ok && b != v {
+		return s.intOf(b)
 	}
 	switch x := v.(type) {
 	case *ssa.Const:
@@ -152,6 +156,9 @@ func (s *symEnv) bytesOf(v ssa.Value) (lin, bool) {
 	if l, ok := s.bytes[v]; ok {
 		return l, true
 	}
+	if b, ok := s.binds[v]; ok && b != v {
+		return s.bytesOf(b)
+	}
 	switch x := v.(type) {
 	case *ssa.Slice:
 		if hi, ok := intConst(x.High); ok && hi == 0 && x.Low == nil {
@@ -177,12 +184,17 @@ func symRun(p *pathx.Path, init func(phi *ssa.Phi) (lin, bool)) *symEnv {
 }
 
 func symRunInit(p *pathx.Path, init func(phi *ssa.Phi) (lin, bool), pre map[ssa.Value]lin) *symEnv {
-	s := &symEnv{ints: map[ssa.Value]lin{}, bytes: map[ssa.Value]lin{}}
+	s := &symEnv{ints: map[ssa.Value]lin{}, bytes: map[ssa.Value]lin{}, binds: pathBindings(p)}
 	for k, v := range pre {
 		s.bytes[k] = v
 	}
-	var pred *ssa.BasicBlock
-	for bi, b := range p.Blocks {
+	blocks := p.AllBlocks
+	if len(blocks) == 0 {
+		blocks = p.Blocks
+	}
+	preds := map[*ssa.Function]*ssa.BasicBlock{}
+	for bi, b := range blocks {
+		pred := preds[b.Parent()]
 		// phis first, simultaneously
 		type upd struct {
 			phi *ssa.Phi
@@ -278,7 +290,7 @@ func symRunInit(p *pathx.Path, init func(phi *ssa.Phi) (lin, bool), pre map[ssa.
 			s.bytes[call] = base.add(add, 1)
 			s.last = call
 		}
-		pred = b
+		preds[b.Parent()] = b
 	}
 	return s
 }
@@ -722,7 +734,7 @@ func (c *Ctx) cod7(encs []*encoder) {
 	if enc := c.Fn("COD-7", "(*Config).newCONNREQ"); enc != nil && valid != nil {
 		condOf := func(fn *ssa.Function, pick func(tb *ssa.BasicBlock) bool) []string {
 			var out []string
-			for _, b := range fn.Blocks {
+			for _, b := range c.regionBlocks(fn) {
 				iff, ok := b.Instrs[len(b.Instrs)-1].(*ssa.If)
 				if !ok {
 					continue
